@@ -99,6 +99,20 @@ def _has_lambda(t, _seen=None):
     return any(_has_lambda(c, _seen) for c in t.children())
 
 
+def _mentions(t, consts):
+    ids = {c.get_id() for c in consts}
+    seen, todo = set(), [t]
+    while todo:
+        u = todo.pop()
+        if u.get_id() in seen:
+            continue
+        seen.add(u.get_id())
+        if u.get_id() in ids:
+            return True
+        todo.extend([u.body()] if z3.is_quantifier(u) else u.children())
+    return False
+
+
 def to_z3(v, want=None):
     """python/z3 scalar -> z3 expr (Int, Real or Bool)."""
     if isinstance(v, bool):
@@ -450,6 +464,14 @@ class Engine:
         (a conservative extension; the definitions are premises of every obligation). Cached by term identity."""
         if not _has_lambda(term):
             return term
+        bound = [v for fr in getattr(self, 'bound_stack', []) for v in fr]
+        if bound and _mentions(term, bound):
+            # a definition "for all x, y: t[x][y] == term[x][y]" would turn the contract's bound variable into a free constant
+            # (the obligation then talks about an unrelated matrix and cannot be proved): beta-reduce instead, refuse otherwise
+            red = z3.simplify(term)
+            if _has_lambda(red):
+                raise ContractError('matrix term depends on a quantified variable and does not reduce to a lambda-free term: %s' % str(term)[:200])
+            return red
         key = term.get_id()
         if key in self.pure_cache:
             return self.pure_cache[key][1]
@@ -1356,6 +1378,9 @@ def _sb_forall(eng, st, node):
         st.ghost[n] = v
     shadow = {n: st.env.pop(n) for n in names if n in st.env}
     pats = None
+    if not hasattr(eng, 'bound_stack'):
+        eng.bound_stack = []
+    eng.bound_stack.append(vs)
     try:
         body = truth(eng.ev(lam.body, st))
         for kw in node.keywords:
@@ -1364,6 +1389,7 @@ def _sb_forall(eng, st, node):
                 pv = list(pv) if isinstance(pv, (tuple, list)) else [pv]
                 pats = [z3.MultiPattern(*[to_z3(t) for t in pv])] if len(pv) > 1 else [to_z3(pv[0])]
     finally:
+        eng.bound_stack.pop()
         for n in names:
             if saved[n] is None:
                 st.ghost.pop(n, None)
@@ -1784,6 +1810,19 @@ def _sb_lemma_walks(eng, st, node):
     return z3.And(*out)
 
 
+def _sb_KCf(eng, st, node):
+    """KCf(CIJ, k): the matrix returned by the k-core routine for bound k (abstract callee result, contracts/core_c15.py)."""
+    from contracts.core_c15 import KC
+    M = _term2(eng, st, eng.ev(node.args[0], st))
+    return Opaque('snapshot', obj=Obj(2, KC(M, to_z3(eng.ev(node.args[1], st), REAL)), (st.ghost.get('n0'), st.ghost.get('n0')), REAL))
+
+
+def _sb_KNf(eng, st, node):
+    from contracts.core_c15 import KN
+    M = _term2(eng, st, eng.ev(node.args[0], st))
+    return KN(M, to_z3(eng.ev(node.args[1], st), REAL))
+
+
 def _sb_same_object(eng, st, node):
     a, b = eng.ev(node.args[0], st), eng.ev(node.args[1], st)
     return isinstance(a, Ref) and isinstance(b, Ref) and a.oid == b.oid
@@ -1822,7 +1861,7 @@ SPEC_BUILTINS = {
     'totF': _mk_specfn(totF, 1), 'totFp': _mk_specfn(totFp, 1), 'totFn': _mk_specfn(totFn, 1),
     'rpos': _mk_specfn(rpos, 2), 'rneg': _mk_specfn(rneg, 2), 'cpos': _mk_specfn(cpos, 2), 'cneg': _mk_specfn(cneg, 2),
     'dot2': _sb_dot2, 'isperm': _sb_isperm, 'same_object': _sb_same_object, 'unchanged': _sb_unchanged,
-    'snapshot': _sb_snapshot, 'argref': _sb_argref, 'lam1': _sb_lam1, 'result_is_empty': _sb_result_is_empty, 'hopsint': _sb_hopsint, 'lam2': _sb_lam2, 'unique_witness': _sb_unique_witness, 'member': _sb_member, 'dset': _sb_dset(dset), 'rset': _sb_dset(rset), 'wset': _sb_dset(wset), 'cntb': _sb_cntb,
+    'snapshot': _sb_snapshot, 'argref': _sb_argref, 'lam1': _sb_lam1, 'KCf': _sb_KCf, 'KNf': _sb_KNf, 'result_is_empty': _sb_result_is_empty, 'hopsint': _sb_hopsint, 'lam2': _sb_lam2, 'unique_witness': _sb_unique_witness, 'member': _sb_member, 'dset': _sb_dset(dset), 'rset': _sb_dset(rset), 'wset': _sb_dset(wset), 'cntb': _sb_cntb,
     'modsum': _mk_mod(modsum, 3), 'modsumT': _mk_mod(modsumT, 3), 'degsum': _mk_mod(degsum, 2), 'degsumT': _mk_mod(degsumT, 2), 'agg': _mk_mod(agg, 3),
     'Qmod': _sb_Qmod, 'walk': _sb_walk, 'isint': (lambda eng, st, node: z3.IsInt(to_z3(eng.ev(node.args[0], st), REAL))), 'sdist': _sb_sdist, 'lemma_walks': _sb_lemma_walks, 'Qrawg': _sb_Qrawg, 'umul': _sb_umul, 'lemma_umul_linear': _sb_lemma_umul_linear, 'QrawB': _mk_mod(QrawB, 1), 'tsum': _mk_specfn(tsum, 1), 'csum': _mk_specfn(csum, 2), 'lemma_modularity': _sb_lemma_modularity, 'lemma_knm_sums': _sb_lemma_knm_sums, 'lemma_relabel': _sb_lemma_relabel, 'lemma_relabel_g': _sb_lemma_relabel_g, 'lemma_q_from_aggregate': _sb_lemma_q_from_aggregate,
     'lemma_masked_degree': _sb_lemma_masked_degree, 'lemma_degree_monotone': _sb_lemma_degree_monotone, 'result': _sb_result, 'raised': _sb_raised, 'shape_is': _sb_shape_is,
